@@ -1,6 +1,7 @@
 import JetVerif.Props.C02
 import JetVerif.Props.C02P
 import JetVerif.Props.C02L
+import JetVerif.Props.C02H
 open JetVerif.Props.C02
 open JetVerif.Props.C02P
 open JetVerif.Props.C02L
@@ -25,3 +26,13 @@ open JetVerif.Props.C02L
 #print axioms parser_terminates
 #print axioms parseSource_terminates
 #print axioms parseSource_total
+open JetVerif.Props.C02H
+#print axioms successful_parse_receives_every_item
+#print axioms JetVerif.Lex.lexRun_eof_is_last_event
+#print axioms JetVerif.Lex.lexRun_items_eof_last
+#print axioms drain_lets_the_goroutine_finish
+#print axioms no_drain_no_receive_leaves_it_blocked
+#print axioms jet_error_path_drains
+#print axioms error_path_empties_the_channel
+#print axioms jet_handover_is_disciplined
+#print axioms set_parse_leaves_no_goroutine
